@@ -30,6 +30,9 @@ type c20Rule struct {
 	Alerts  []string `json:"selects_alerts"`  // alert names selected through ALERTS{alertname="..."}
 	Removed bool     `json:"removed"`
 	ByName  bool     `json:"uses_name_matcher_form"` // some reference is written {__name__="m"}
+	// a removed rule whose place is taken, at HEAD, by a rule of the OTHER kind with the same name (record: X
+	// becomes alert: X): still a removal of X as far as dependants are concerned
+	Switched bool `json:"kind_switched,omitempty"`
 }
 
 type c20Case struct {
@@ -99,6 +102,14 @@ func (c c20Case) render(withRemoved bool) map[string]string {
 		n := 0
 		for _, ru := range c.Files[p] {
 			if ru.Removed && !withRemoved {
+				if ru.Switched {
+					n++
+					if ru.Alert {
+						fmt.Fprintf(&sb, "  - record: %s\n    expr: 'vector(1)'\n", ru.Name)
+					} else {
+						fmt.Fprintf(&sb, "  - alert: %s\n    expr: 'vector(1) > 0'\n", ru.Name)
+					}
+				}
 				continue
 			}
 			n++
@@ -394,6 +405,7 @@ func runC20(r *hx.Run, replay string) {
 			for j, n := 0, 1+rr.Intn(4); j < n; j++ {
 				ru := c20RandRule(r)
 				ru.Removed = rr.Intn(3) == 0
+				ru.Switched = ru.Removed && rr.Intn(4) == 0
 				cs.Files[p] = append(cs.Files[p], ru)
 			}
 			if rr.Intn(6) == 0 { // remove the whole file
